@@ -104,6 +104,13 @@ func genC20Idx(g *Gen) error {
 		{bf + "filter_reader.go", "FilterReader.getAllHashes", "filterGetAllHashes"},
 		{bf + "filter_reader.go", "CreateFilterReader", "bfCreateFilterReader"},
 		{bf + "multi_field_filter_reader.go", "NewMultiFiledLineFilterReader", "multiNewMultiFiledLineFilterReader"},
+		{bf + "filter_reader.go", "FilterReader.IsExist", "filterIsExist"},
+		{bf + "filter_reader.go", "NewFilterReader", "filterNewFilterReader"},
+		{bf + "filter_reader.go", "VerticalFilterReader.hitExpr", "vertHitExpr"},
+		{bf + "filter_reader.go", "VerticalFilterReader.loadHash", "vertLoadHash"},
+		{bf + "filter_reader.go", "VerticalFilterReader.getPieceOffset", "vertGetPieceOffset"},
+		{"lib/logstore/bloomfilter.go", "FlushVerticalFilter", "lsFlushVerticalFilter"},
+		{sk + "bloom_filter_index.go", "BloomFilterWriter.CreateDetachIndex", "bfCreateDetachIndex"},
 		{qlAst, "IndexRelation.GetFullTextColumns", "irGetFullTextColumns"},
 		{qlAst, "IndexRelation.GetIndexOidByName", "irGetIndexOidByName"},
 		{"engine/index/index.go", "GetSchemaIndex", "idxGetSchemaIndex"},
